@@ -166,6 +166,37 @@ def mask_history(ctx, gen, report=None):
                         ctx.disagree('C07/mask-history', case, why, 'split of the construction-time mask', why)
                 elif why:
                     report('%s built from a %s mask that the caller flips in place afterwards: %s' % (cls, src, why), case, {'class': cls, 'symptom': 'mask-aliased'})
+    # a checkpoint of a layer restored into a layer built with ANOTHER mask of the same counts (random masks differ between constructions):
+    # the restored layer is the saved one — the saved mask's identity features pass through, its transformed features move
+    for cls, mk in makers.items():
+        for (pa, pb) in (([1, -1, 1, -1], [-1, 1, -1, 1]), ([1, 1, -1], [-1, 1, 1]), ([-1, 1, -1, -1, 1], [1, -1, -1, 1, -1])):
+            torch.manual_seed(int(torch.randint(0, 2 ** 31 - 1, (1,), generator=gen)))
+            a = mk(torch.tensor([float(v) for v in pa])); R.perturb(a, 'normal', gen); a = a.double().eval()
+            b = mk(torch.tensor([float(v) for v in pb])).double().eval()
+            why = None
+            try:
+                b.load_state_dict(a.state_dict())
+                ident = [i for i, v in enumerate(pa) if v <= 0]
+                trans = [i for i, v in enumerate(pa) if v > 0]
+                x = torch.randn(3, len(pa), generator=gen, dtype=torch.float64)
+                for inverse in (False, True):
+                    ka, ya, la = R.impl_call(a, x, None, inverse)
+                    kb, yb, lb = R.impl_call(b, x, None, inverse)
+                    if ka != 'ok' or kb != 'ok':
+                        why = 'raised %s / %s' % (ka, kb); break
+                    if not torch.equal(yb[:, ident], x[:, ident]):
+                        why = 'identity features of the saved mask were changed by the restored layer'; break
+                    if not (torch.equal(ya, yb) and torch.equal(la, lb)):
+                        why = 'the restored layer is not the saved layer'; break
+            except Exception as ex:
+                why = 'load_state_dict raised %s' % type(ex).__name__
+            case = {'class': cls, 'mask': pa, 'mask_of_the_fresh_layer': pb, 'history': ['a = %s(mask_a)' % cls, 'b = %s(mask_b)' % cls, 'b.load_state_dict(a.state_dict())', 'b(x)']}
+            if report is None:
+                ctx.case(key=('mask-history', cls, 'reload', tuple(pa)), branch='mask-history/reload', nontrivial=True, n=3 * len(pa))
+                if why:
+                    ctx.disagree('C07/mask-history', case, why, 'split of the saved mask', why)
+            elif why:
+                report('%s restored into a layer built with another mask of the same counts: %s' % (cls, why), case, {'class': cls, 'symptom': 'mask-after-reload'})
     # SimpleRealNVP: consecutive coupling layers transform complementary halves
     for feats in (2, 5):
         torch.manual_seed(int(torch.randint(0, 2 ** 31 - 1, (1,), generator=gen)))
